@@ -544,6 +544,26 @@ def check_rotation_chain_order(ctx: Check, tree: Tree) -> None:
             if not (len(incs) == 1 and isinstance(incs[0].op, ast.Add) and isinstance(incs[0].value, ast.Constant) and incs[0].value.value == 1
                     and not any(isinstance(a, (ast.If, ast.For, ast.While)) for a in ancestors(incs[0]) if a is not owner.node and any(a is x for x in ast.walk(owner.node)))):
                 problems.append(f"the index counter `{cn}` is not advanced by exactly 1 per rotation")
+        # Euler angles of a helicity rotation: (phi, theta, 0) of the helicity state of that level
+        angle_syms = None
+        for d in ord_.defs:
+            if isinstance(d.value, ast.Call) and unparse(d.value.func).endswith("get_helicity_angle_symbols") and d.index is not None:
+                angle_syms = angle_syms or {}
+                angle_syms[d.name] = d.index
+        kwv = {k.arg: k.value for k in call.keywords}
+        conv_ok = (angle_syms is not None and isinstance(kwv.get("alpha"), ast.Name) and angle_syms.get(kwv["alpha"].id) == 0
+                   and isinstance(kwv.get("beta"), ast.Name) and angle_syms.get(kwv["beta"].id) == 1
+                   and isinstance(kwv.get("gamma"), ast.Constant) and kwv["gamma"].value == 0)
+        if not conv_ok:
+            problems.append("the helicity rotation does not use (alpha, beta, gamma) = (phi, theta, 0) of get_helicity_angle_symbols")
+        # a chain of a single rotation has no summation left: its index is identified with the helicity symbol
+        tails = [n for n in walk_function(fn.node, nested=False) if isinstance(n, ast.If) and any(isinstance(b, ast.Return) and b.value is not None and ".subs(" in unparse(b.value) for b in n.body)]
+        if tails:
+            t = tails[0].test
+            ok_tail = (isinstance(t, ast.Compare) and len(t.ops) == 1 and isinstance(t.ops[0], ast.Eq) and isinstance(t.comparators[0], ast.Constant) and t.comparators[0].value == 1
+                       and unparse(t.left).replace(" ", "").startswith("len(") and unparse(t.left).endswith(".indices)"))
+            if not ok_tail:
+                problems.append(f"the single-rotation special case is taken under `{unparse(t)}`, not iff exactly one summation index exists")
         stops = [n for n in walk_function(owner.node) if isinstance(n, ast.If) and any(isinstance(b, ast.Return) for b in n.body)]
         if not any(isinstance(n.test, ast.Compare) and len(n.test.ops) == 1 and isinstance(n.test.ops[0], ast.Is) and isinstance(n.test.comparators[0], ast.Constant)
                    and n.test.comparators[0].value is None and any(d.value is not None and "get_parent_id(" in unparse(d.value) for d in ord_.reaching(n.test.left) ) for n in stops if isinstance(n.test, ast.Compare) and isinstance(n.test.left, ast.Name)):
